@@ -89,6 +89,7 @@ static uint64_t co_hash, co_switches, co_budget, co_points;
 static uint64_t pct_change[8];
 static int pct_nchange;
 static bool co_cut;
+static uint64_t co_run_len;
 
 static inline uint64_t rng_next(uint64_t *s)
 {
@@ -258,6 +259,7 @@ static void co_switch_to(int n)
 		return;
 	int prev = co_cur;
 	co_cur = n;
+	co_run_len = 0;
 	co_switches++;
 	co_hash = (co_hash ^ ((uint64_t)(n + 1) + (co_points << 8))) * 0x100000001b3ull;
 	swapcontext(&cos[prev].ctx, &cos[n].ctx);
@@ -301,6 +303,16 @@ static void co_point(void)
 				cos[co_cur].prio = -(int)(i + 1); /* drop below everybody */
 				break;
 			}
+		if (++co_run_len > 3000) {
+			/* a thread spinning inside library code (ringbuf_putchar) would starve the others
+			 * under a pure priority schedule: treat a very long run like a back-off */
+			int lowest = 0;
+			for (int i = 0; i < nco; i++)
+				if (!cos[i].done && cos[i].prio < lowest)
+					lowest = cos[i].prio;
+			cos[co_cur].prio = lowest - 1;
+			co_run_len = 0;
+		}
 		int h = co_highest();
 		if (h >= 0 && h != co_cur)
 			co_switch_to(h);
